@@ -46,10 +46,12 @@ CHECKS = {
             "3 C04"),
     "C05": ("fault_enumeration",
             "exhaustive fault-position x fault-kind and cancellation-point x style enumeration over base scenarios on a harness-scheduled asyncio run, plus Hypothesis-drawn fault/cancel/schedule combinations; oracle = pool state predicates and a behavioural capacity probe",
-            "For 17 connection kinds x 4 contexts x 3 request shapes: one run per fault-eligible network op index and documented fault kind, and "
+            "For 21 connection kinds (incl. Unix-socket pools and forced HTTP/2 over TLS) x 4 contexts x 3 request shapes: one run per fault-eligible network op index and documented fault kind, and "
             "one per suspension point of the victim and cancellation style (asyncio task.cancel, anyio scope); afterwards the pool must count no "
             "request, hold no stuck connection, and serve max_connections simultaneous probe requests without waiting.",
-            "asyncio (task.cancel and anyio scope) and trio (trio.CancelScope; layer 'trio' re-runs the enumeration on the trio runtime) ; SimNet stands for the backends; known open findings are matched by signature and listed.",
+            "asyncio (task.cancel and anyio scope) and trio (trio.CancelScope; layer 'trio' re-runs the enumeration on the trio runtime) ; SimNet stands for the backends (handshake faults are repeated under a backend that leaves the stream open, with retries 0 and 2; closing the "
+            "plain-TCP stream object after a TLS upgrade closes nothing, as with the sync backend); requests the client itself refuses (illegal head, "
+            "Content-Length mismatch) are enumerated as failures too; known open findings are matched by signature and listed.",
             "3 C05"),
     "C06": ("fault_enumeration",
             "same enumerated and generated runs as C05 with a stream ledger oracle (opened / owned / closed) over the simulated network",
@@ -78,7 +80,7 @@ CHECKS = {
             "Generated sequences of requests, streaming opens, (partial) closes, clock advances and server-side closes over 1-3 origins for drawn "
             "max_connections / max_keepalive_connections / keepalive_expiry (incl. 0 and None), HTTP/1.1 and HTTP/2: reuse law, idle count <= "
             "keep-alive limit after every operation, no stale connection handed out, every close of an idle connection attributable.",
-            "Reference model in vf/props/c09.py; ties within 1 ms of a deadline are not judged; sequential (single caller). Layer real-backends: the real socket-readability probe behind the sync / anyio / trio backends (plain, TLS, TLS-in-TLS): silent server-side close of the idle connection, then the next request; reuse without a close.",
+            "Reference model in vf/props/c09.py; ties within 1 ms of a deadline are not judged; sequential (single caller); operations include server-side closes of idle HTTP/1.1 connections and server PINGs on idle HTTP/2 connections. Layer real-backends: the real socket-readability probe behind the sync / anyio / trio backends (plain, TLS, TLS-in-TLS): silent server-side close of the idle connection, then the next request; reuse without a close.",
             "3 C09"),
     "C10": ("exploration",
             "exhaustive configuration matrix + Hypothesis request histories over near-miss origins; oracle = establishment chain of the pipe that carried each token",
@@ -159,13 +161,13 @@ CHECKS = {
             "Hypothesis property tests against an own RFC 3986 splitter (reference model) plus origin/round-trip/Host laws",
             "Generated URLs from RFC 3986 productions, header containers and content kinds checked against an independent "
             "splitter, an origin equality law on near-miss pairs, a bytes() round trip and Host/Content-Length synthesis laws.",
-            "Own ~40-line splitter is the reference; sampled, not exhaustive; port 0 / >65535 outside the domain.",
+            "Own ~40-line splitter is the reference; sampled, not exhaustive; port 0 / >65535 outside the domain; law 9: the origin follows reassigned scheme / host / port attributes of a URL object.",
             "3 C19"),
     "C20": ("fault_enumeration",
             "exhaustive enumeration of connect/TLS outcome sequences against a reference retry-law model, plus Hypothesis sampling",
             "Every run of retryable failures followed by every terminal outcome, for N in 0..4, TCP/Unix socket, plain/TLS, "
             "sync and async, compared with the exact op list and exception the retry law predicts.",
-            "SimNet replaces sockets (documented backend interface); the 15-line retry model is the oracle.",
+            "SimNet replaces sockets (documented backend interface); the 15-line retry model is the oracle; terminal outcomes include OSError-family exceptions, and the request's connect timeout is a dimension (the law does not depend on it).",
             "3 C20"),
 }
 
